@@ -229,6 +229,15 @@ def run(facts, tier, ctx):
             if s["k"] == "assign" and s["dst"]["p"] and s["dst"]["l"] == 1:
                 if not any(b.dominates(a, bi) and a != bi for a in al):
                     ok = False
+        # ... and no return may skip it (the default method pads even for an empty slice and reports the pad count)
+        if ok:
+            from .lib_mpt import mpt as _mpt, path_str as _ps
+            okp, path = _mpt(b, al, 0, b.returns())
+            if not okp:
+                sb.fail(Finding("SIBLING", b.id, "write_bytes_aligned-return-without-align", 0, b.loc(),
+                                "%s can return without calling align_to_byte (%s); the default method and the sibling "
+                                "override always pad to the byte boundary first" % (b.id, _ps(b, path))))
+                continue
         if ok:
             sb.ok({"impl": imp["self"], "site": b.loc(), "verdict": "ok"})
         else:
